@@ -35,6 +35,9 @@ RULE = ("JSON values built from an adversarial alphabet (quotes, backslashes, \\
         "ResourceFunction / Workflow with a ValueFunction dependency offered twice with different static values, "
         "then re-prepared by koreo after the dependency is updated); maps holding Python-equal but JSON-different "
         "twin leaves (1 / true / 1.0, 0 / false, [1] / [true] ...) side by side or in nested maps, compared type-exactly; "
+        "static metadata.ownerReferences lists (absent, empty, 1, 2+ entries with distinct / equal / no uids, one equal to "
+        "the parent) of a ResourceFunction that is owned in the parent's namespace, owned in another namespace, unowned, or "
+        "adopted by a later PATCH: every written entry must arrive in order, the parent's reference appended exactly when owned there; "
         "map keys drawn also from near misses of the three x-koreo-* directive names (only the three exact names may "
         "be missing from an object sent to the cluster); "
         "encoder outputs plus random mutations of them are lexed/parsed/evaluated by real celpy and by the model. "
@@ -473,6 +476,114 @@ def real_rf_patch(where, v):
             kind = "literal-lost-from-PATCH-body:" if want is v else "sibling-static-value-lost-from-PATCH-body:"
             return (kind + ".".join(path), other)
     return ("ok", got)
+
+
+PARENT = {"apiVersion": "v1", "kind": "Parent", "name": "parent", "uid": "uid-parent",
+          "blockOwnerDeletion": True, "controller": False}
+OWNERSHIPS = ("owned-same-ns", "owned-other-ns", "unowned", "adopt")
+REF_VARIANTS = ("absent", "empty", "one", "two-distinct-uids", "two-equal-uids", "two-without-uid",
+                "three-mixed", "includes-the-parent")
+OWNER_REF_ROUTES = tuple(f"rf-owner-refs:{o}:{r}" for o in OWNERSHIPS for r in REF_VARIANTS)
+
+
+def static_owner_refs(variant, v):
+    """the literally written metadata.ownerReferences list of the variant (None = key not written); the literal
+    under test rides along as an extra field of the first entry"""
+    def ref(kind, name, uid=None, **extra):
+        r = {"apiVersion": "v1", "kind": kind, "name": name}
+        if uid is not None:
+            r["uid"] = uid
+        r.update(extra)
+        return r
+    return {
+        "absent": None,
+        "empty": [],
+        "one": [ref("ConfigMap", "first", "uid-a", note=v)],
+        "two-distinct-uids": [ref("ConfigMap", "first", "uid-a", note=v), ref("Secret", "second", "uid-b")],
+        "two-equal-uids": [ref("ConfigMap", "first", "uid-a", note=v), ref("Secret", "second", "uid-a")],
+        "two-without-uid": [ref("ConfigMap", "first", note=v), ref("Secret", "second")],
+        "three-mixed": [ref("ConfigMap", "first", "uid-a", note=v), ref("Secret", "second"),
+                        ref("Widget", "third", "uid-a"), ref("Widget", "fourth")],
+        "includes-the-parent": [ref("ConfigMap", "first", "uid-a", note=v),
+                                ref("Parent", "parent", "uid-parent", controller=False)],
+    }[variant]
+
+
+def real_rf_owner_refs(ownership, variant, v):
+    """A ResourceFunction whose static `resource` writes metadata.ownerReferences (0, 1, 2+ entries; distinct, equal
+    or no uids) and the literal at spec.v, created as an owned resource in the parent's namespace / in another
+    namespace / unowned; "adopt" = created while the parent is in another namespace, then reconciled with the
+    parent in the same namespace, which PATCHes the parent in.  Every literally written entry must arrive, in
+    order; the parent's reference is appended exactly when the resource is owned in the parent's namespace and no
+    entry carries the parent's uid.  -> ("ok", spec.v) | failure class"""
+    import drivers
+    refs = static_owner_refs(variant, v)
+    metadata = {"labels": dict(LABELS)}
+    if refs is not None:
+        metadata["ownerReferences"] = refs
+    spec = {"apiConfig": {**RF_API, "owned": ownership != "unowned"},
+            "resource": {"metadata": metadata, "spec": {"v": v, "base": SIDE["base"]}},
+            "create": {"delay": 1}}
+    same = ("default", dict(PARENT))
+    other = ("elsewhere", dict(PARENT))
+
+    def expected(owned_here):
+        want = strip_exact_directives(refs) if refs is not None else None
+        if owned_here and not any(r.get("uid") == PARENT["uid"] for r in (refs or [])):
+            want = (want or []) + [dict(PARENT)]
+        return want
+
+    async def go():
+        fn, err = drivers.unwrap_prepared(await drivers.prepare_rf("rf-c11", spec))
+        if fn is None:
+            return ("prepfail", None)
+        cl = drivers.Cluster()
+        first_owner = same if ownership in ("owned-same-ns", "unowned") else other
+        await drivers.reconcile_rf(fn, {}, cl, owner=first_owner)
+        posts = [c for c in cl.calls if c["method"] == "POST"]
+        if not posts:
+            return ("evalfail", None)
+        out = [("POST", posts[0]["body"], expected(ownership == "owned-same-ns"))]
+        if ownership == "adopt":
+            try:
+                await drivers.reconcile_rf(fn, {}, cl, owner=same)
+                patches = [c for c in cl.calls if c["method"] == "PATCH"]
+                if len(patches) == 1:
+                    out.append(("PATCH", patches[0]["body"], expected(True)))
+                elif variant != "includes-the-parent":
+                    return ("the-parent-is-not-patched-in", None)
+            except Exception as e:
+                NOT_OBSERVABLE[f"rf-owner-refs (PATCH half): raises {type(e).__name__}"] = \
+                    NOT_OBSERVABLE.get(f"rf-owner-refs (PATCH half): raises {type(e).__name__}", 0) + 1
+        return ("ok", out)
+
+    drivers.reset_all()
+    try:
+        st, out = drivers.run_async(go())
+    except Exception as e:
+        return ("raises", type(e).__name__)
+    finally:
+        drivers.reset_all()
+    if st != "ok":
+        return (st, out)
+    got_v = None
+    for what, body, want_refs in out:
+        st2, got = _at(body, ("spec", "v"))
+        if st2 != "ok":
+            return (f"missing-from-{what}-body", None)
+        got_v = got if got_v is None else got_v
+        st3, got_refs = _at(body, ("metadata", "ownerReferences"))
+        if want_refs is None:
+            if st3 == "ok":
+                return (f"unwritten-ownerReferences-in-{what}-body", got_refs)
+        elif st3 != "ok" or delivered_ok(want_refs, got_refs) is not None:
+            return (f"static-ownerReferences-not-as-written-in-{what}-body", got_refs)
+        for k, x in LABELS.items():
+            if _at(body, ("metadata", "labels", k)) != ("ok", x):
+                return (f"sibling-static-value-lost-from-{what}-body:metadata.labels." + k, None)
+        if what == "PATCH" and delivered_ok(strip_exact_directives(v), got) is not None:
+            return ("ok", got)
+    return ("ok", got_v)
 
 
 def real_cache_reprepare(kind, v):
@@ -1103,24 +1214,26 @@ BASE_ROUTES = ("direct", "vf-return", "vf-locals") + (("rf-post",) if RF_AVAILAB
 # two / three inline overlays, in create.overlay, in a ValueFunction overlay's return, in step inputs / state
 OTHER_ROUTES = (("rf-patch-nested", "rf-create-overlay", "cache-rf-reprepare", "wf-step-inputs", "rf-patch-metadata",
                  "cache-wf-reprepare", "wf-step-state") if RF_AVAILABLE else ())
-EXTRA_ROUTES = OTHER_ROUTES + (CHAIN_ROUTES if RF_AVAILABLE else ())
+EXTRA_ROUTES = OTHER_ROUTES + ((CHAIN_ROUTES + OWNER_REF_ROUTES) if RF_AVAILABLE else ())
 ROUTES = BASE_ROUTES + EXTRA_ROUTES
 # routes whose observation is an object sent to the cluster: the three exact directive keys are stripped by design
 STRIPPING_ROUTES = ("rf-post", "rf-create-overlay", "rf-patch-nested", "rf-patch-metadata", "cache-rf-reprepare")
 
 
 def strips_directives(route):
-    return route in STRIPPING_ROUTES or route.startswith("rf-overlays:")
+    return route in STRIPPING_ROUTES or route.startswith(("rf-overlays:", "rf-owner-refs:"))
 
 
 def routes_for(k):
-    """all base routes, two of the other extra routes and two of the 32 overlay-chain routes in rotation
+    """all base routes, two of the other extra routes, two of the 32 overlay-chain routes and one of the 32
+    owner-reference routes in rotation
     (the corpus gets every route)"""
     if not EXTRA_ROUTES:
         return BASE_ROUTES
     n, m = len(OTHER_ROUTES), len(CHAIN_ROUTES)
     return (BASE_ROUTES + tuple(OTHER_ROUTES[(2 * k + j) % n] for j in (0, 1))
-            + tuple(CHAIN_ROUTES[(2 * k + j * 11) % m] for j in (0, 1)))
+            + tuple(CHAIN_ROUTES[(2 * k + j * 11) % m] for j in (0, 1))
+            + (OWNER_REF_ROUTES[(5 * k) % len(OWNER_REF_ROUTES)],))
 
 
 ALREADY_SHRUNK: set = set()
@@ -1150,6 +1263,9 @@ def deliver(route, v):
         return real_resource_function_post(v)
     if route.startswith("rf-overlays:"):
         return real_rf_overlay_chain(*parse_chain_route(route), v)
+    if route.startswith("rf-owner-refs:"):
+        _, ownership, variant = route.split(":")
+        return real_rf_owner_refs(ownership, variant, v)
     if route == "rf-create-overlay":
         return real_rf_create_overlay(v)
     if route == "rf-patch-nested":
@@ -1191,7 +1307,9 @@ def route_fails(route, v):
         if "generation" in st:
             return (f"{route} -> stale static values " + st.split(":")[0],
                     f"{st} (literal under test: {describe(v)})", [st, got])
-        if st.startswith(("missing-from-", "sibling-static-value-lost", "literal-lost-from-")) \
+        if st.startswith(("missing-from-", "sibling-static-value-lost", "literal-lost-from-",
+                          "static-ownerReferences-not-as-written", "unwritten-ownerReferences",
+                          "the-parent-is-not-patched-in")) \
                 or ": missing-from-" in st:
             # the pipeline drops a whole static value, whatever the literal is
             return (f"{route} -> {st}", f"a static value written in the definition does not reach the "
